@@ -5,14 +5,18 @@ import (
 	"crypto"
 	"crypto/ecdsa"
 	"crypto/ed25519"
+	"crypto/rand"
 	"crypto/rsa"
 	"crypto/sha1"
 	"crypto/sha256"
 	"crypto/sha512"
+	"encoding/asn1"
 	"encoding/base64"
 	"encoding/binary"
 	"errors"
 	"math/big"
+	"os"
+	"runtime/pprof"
 	"strconv"
 	"strings"
 	"time"
@@ -24,7 +28,14 @@ import (
 // C18: SIG(0). Any message can be signed; only untampered, timely messages verify;
 // Verify returns an error rather than panicking on malformed input of header size or more.
 
-func main() { Main(runC18) }
+func main() {
+	if f := os.Getenv("C18_PROF"); f != "" {
+		fh, _ := os.Create(f)
+		pprof.StartCPUProfile(fh)
+		defer pprof.StopCPUProfile()
+	}
+	Main(runC18)
+}
 
 // ---------------------------------------------------------------------------
 // keys (generated once per run through the library's own generator)
@@ -481,46 +492,253 @@ func receive(buf []byte, fallback *dns.SIG, k *dns.KEY) (verdict string, used *d
 	return
 }
 
+// Model cases whose octets do not fit a literal (more than 3000 octets) are
+// described by a run-length recipe both sides expand (Corr/C18.v expand) and long
+// octet strings are compared by length.sum.sum-of-prefix-sums (Corr/C18.v digest).
+// They cost ~0.1-0.4 s each inside Coq, so they are queued and interleaved with
+// the small cases: the case list is evaluated in shards of 150.
+type pcase struct {
+	fn   string
+	args []string
+	out  string
+}
+
+var pending []pcase
+var emitted int
+
+func emitCase(fn string, args []string, out string) {
+	Emit(fn, args, out)
+	emitted++
+	if emitted%16 == 0 && len(pending) > 0 {
+		p := pending[0]
+		pending = pending[1:]
+		Emit(p.fn, p.args, p.out)
+	}
+}
+
+func emitBig(fn string, args []string, out string) {
+	pending = append(pending, pcase{fn, args, out})
+	st["big_model_cases"]++
+}
+
+func flushBig() {
+	for _, p := range pending {
+		Emit(p.fn, p.args, p.out)
+	}
+	pending = nil
+}
+
+// rle: seg,seg,... with seg = hex or hex*count (chunk repeated count times).
+func rle(b []byte) string {
+	var sb strings.Builder
+	var lit []byte
+	flush := func() {
+		if len(lit) > 0 {
+			if sb.Len() > 0 {
+				sb.WriteByte(',')
+			}
+			sb.WriteString(Hx(lit))
+			lit = lit[:0]
+		}
+	}
+	for i := 0; i < len(b); {
+		bestP, bestReps := 0, 0
+		for p := 1; p <= 80 && i+p <= len(b); p++ {
+			j := i + p
+			for j < len(b) && b[j] == b[j-p] {
+				j++
+			}
+			reps := (j - i) / p
+			if reps >= 3 && reps*p >= 48 && reps*p > bestP*bestReps {
+				bestP, bestReps = p, reps
+			}
+		}
+		if bestP == 0 {
+			lit = append(lit, b[i])
+			i++
+			continue
+		}
+		flush()
+		if sb.Len() > 0 {
+			sb.WriteByte(',')
+		}
+		sb.WriteString(Hx(b[i:i+bestP]) + "*" + Itoa(bestReps))
+		i += bestP * bestReps
+	}
+	flush()
+	return sb.String()
+}
+
+func digest(b []byte) string {
+	var s1, s2 uint64
+	for _, x := range b {
+		s1 += uint64(x)
+		s2 += s1
+	}
+	return Itoa(len(b)) + "." + u(s1) + "." + u(s2)
+}
+
+const maxLiteral = 3000 // octets given as a hex literal
+const maxRecipe = 16000 // characters of a recipe
+
 // emitVerify: one model case for SIG.Verify on buf.
 func emitVerify(buf []byte, fallback *dns.SIG, kp keyPair, verifier *dns.KEY) string {
 	got, used, t0, t1 := receive(buf, fallback, verifier)
 	if t0 != t1 {
 		return got // the clock ticked during the call: not replayable
 	}
+	emitVerifyResult(buf, used, kp, verifier, got, t0)
+	return got
+}
+
+// emitVerifyResult: the model case for a Verify call already made (SIG used,
+// verdict got, clock reading t0 unchanged over the call).
+func emitVerifyResult(buf []byte, used *dns.SIG, kp keyPair, verifier *dns.KEY, got string, t0 uint32) {
+	big := len(buf) > maxLiteral
 	table := ":::" + defaultClass(kp)
 	rs, ok := refSig0(buf)
 	if !ok {
 		rs, ok = refSig0Lenient(buf)
 	}
 	if ok {
-		table = Hx(rs.data) + ":" + Hx(rs.sig) + ":" + directVerify(kp, used.Algorithm, rs.data, rs.sig) + ":" + defaultClass(kp)
+		d := Hx(rs.data)
+		if big {
+			d = digest(rs.data)
+		}
+		table = d + ":" + Hx(rs.sig) + ":" + directVerify(kp, used.Algorithm, rs.data, rs.sig) + ":" + defaultClass(kp)
 	}
-	args := append(sigArgs(used), Hx(nameWire(verifier.Hdr.Name)), Hx(buf), u(uint64(t0)), table)
-	Emit("verify", args, got)
 	st["verdict_"+strings.TrimPrefix(strings.TrimSuffix(got, ":"), "err:")]++
-	return got
+	if !big {
+		args := append(sigArgs(used), Hx(nameWire(verifier.Hdr.Name)), Hx(buf), u(uint64(t0)), table)
+		emitCase("verify", args, got)
+		return
+	}
+	// the model finds the length of its octet list anew for every name it reads:
+	// ~5 ms per record in a 64 KiB message
+	if nrec := int(binary.BigEndian.Uint16(buf[6:])) + int(binary.BigEndian.Uint16(buf[8:])) + int(binary.BigEndian.Uint16(buf[10:])); nrec > 40 {
+		st["big_verify_case_too_many_records"]++
+		return
+	}
+	rec := rle(buf)
+	if len(rec) > maxRecipe || len(table) > maxRecipe {
+		st["big_case_without_recipe"]++
+		return
+	}
+	args := append(sigArgs(used), Hx(nameWire(verifier.Hdr.Name)), rec, u(uint64(t0)), table)
+	emitBig("verifybig", args, got)
+}
+
+// directSign: hash-then-sign with crypto/* only, in the DNSSEC signature format.
+func directSign(kp keyPair, alg uint8, data []byte) []byte {
+	hashed, ch, ok := directHash(alg, data)
+	if !ok {
+		return nil
+	}
+	sig, err := kp.priv.Sign(rand.Reader, hashed, ch)
+	if err != nil {
+		return nil
+	}
+	if pub, ok := kp.priv.Public().(*ecdsa.PublicKey); ok {
+		var rs struct{ R, S *big.Int }
+		if _, err := asn1.Unmarshal(sig, &rs); err != nil {
+			return nil
+		}
+		n := (pub.Curve.Params().BitSize + 7) / 8
+		sig = append(rs.R.FillBytes(make([]byte, n)), rs.S.FillBytes(make([]byte, n))...)
+	}
+	return sig
+}
+
+// directHash: the octets a signer is handed for data under algorithm alg.
+func directHash(alg uint8, data []byte) ([]byte, crypto.Hash, bool) {
+	switch alg {
+	case dns.RSASHA1, dns.RSASHA1NSEC3SHA1:
+		h := sha1.Sum(data)
+		return h[:], crypto.SHA1, true
+	case dns.RSASHA256, dns.ECDSAP256SHA256:
+		h := sha256.Sum256(data)
+		return h[:], crypto.SHA256, true
+	case dns.ECDSAP384SHA384:
+		h := sha512.Sum384(data)
+		return h[:], crypto.SHA384, true
+	case dns.RSASHA512:
+		h := sha512.Sum512(data)
+		return h[:], crypto.SHA512, true
+	case dns.ED25519:
+		return data, crypto.Hash(0), true
+	}
+	return nil, 0, false
+}
+
+// sigLen: the length of a signature by kp in the DNSSEC format.
+func sigLen(kp keyPair) int {
+	switch pub := kp.priv.Public().(type) {
+	case ed25519.PublicKey:
+		return ed25519.SignatureSize
+	case *ecdsa.PublicKey:
+		return 2 * ((pub.Curve.Params().BitSize + 7) / 8)
+	case *rsa.PublicKey:
+		return pub.Size()
+	}
+	return 0
 }
 
 func emitSign(m *dns.Msg, s *dns.SIG, kp keyPair) {
 	mbuf, err := m.Pack()
-	if err != nil || len(mbuf) > 3000 {
+	if err != nil {
 		return
 	}
-	mu := m.Copy()
-	mu.Compress = false
 	sc := *s
 	out, serr := doSign(&sc, kp, m)
+	emitSignResult(m, s, kp, mbuf, out, serr)
+}
+
+// emitSignResult: the model case for a Sign call already made: s as handed to
+// Sign (Signature empty), mbuf = m.Pack(), (out, serr) what Sign returned.
+func emitSignResult(m *dns.Msg, s *dns.SIG, kp keyPair, mbuf, out []byte, serr error) {
+	big := len(mbuf) > maxLiteral
+	mu := m.Copy()
+	mu.Compress = false
+	rd := sigRdata(s)
+	data := append(append([]byte(nil), rd...), mbuf...)
+	dd := Hx(data)
+	if big {
+		dd = digest(data)
+	}
 	table := "::"
 	got := errClass(serr)
-	if serr == nil {
-		rd := sigRdata(s)
-		data := append(append([]byte(nil), rd...), mbuf...)
-		sig := out[len(mbuf)+11+len(rd):]
-		table = Hx(data) + ":ok:" + Hx(sig)
-		got = "ok:" + Hx(out)
+	sigStart := len(mbuf) + 11 + len(rd)
+	switch {
+	case serr == nil && len(out) >= sigStart:
+		table = dd + ":ok:" + Hx(out[sigStart:])
+	case serr != nil && got == "err:buf":
+		// the 65535 limit is tested after signing: give the model a signature of this key
+		if sg := directSign(kp, s.Algorithm, data); sg != nil {
+			table = dd + ":ok:" + Hx(sg)
+		}
 	}
-	args := append([]string{Itoa(mu.Len()), Hx(mbuf)}, sigArgs(s)...)
-	Emit("sign", append(args, table), got)
+	if serr == nil {
+		got = "ok:" + Hx(out)
+		if big {
+			tail := out
+			if len(out) >= len(mbuf) {
+				tail = out[len(mbuf):]
+			}
+			got = "ok:" + digest(out) + ":" + Hx(out[:min(12, len(out))]) + ":" + Hx(tail)
+		}
+	}
+	if !big {
+		args := append([]string{Itoa(mu.Len()), Hx(mbuf)}, sigArgs(s)...)
+		emitCase("sign", append(args, table), got)
+		return
+	}
+	rec := rle(mbuf)
+	if len(rec) > maxRecipe {
+		st["big_case_without_recipe"]++
+		return
+	}
+	args := append([]string{Itoa(mu.Len()), rec}, sigArgs(s)...)
+	emitBig("signbig", append(args, table), got)
 }
 
 // ---------------------------------------------------------------------------
@@ -528,7 +746,13 @@ func emitSign(m *dns.Msg, s *dns.SIG, kp keyPair) {
 // ---------------------------------------------------------------------------
 
 // oracleMessage: sign m with kp and check every clause on the result.
-func oracleMessage(r *Rng, m *dns.Msg, kp keyPair, others []keyPair, allBits bool) []byte {
+const (
+	modeSample = iota // bit flips and truncations sampled by position
+	modeAll           // every bit, every truncation
+	modeLight         // a fixed number of random bits / truncations (large messages)
+)
+
+func oracleMessage(r *Rng, m *dns.Msg, kp keyPair, others []keyPair, mode int) []byte {
 	now := uint32(time.Now().Unix())
 	s := newSig(kp, now-3000, now+3000)
 	packed, perr := m.Pack()
@@ -536,14 +760,25 @@ func oracleMessage(r *Rng, m *dns.Msg, kp keyPair, others []keyPair, allBits boo
 		return nil
 	}
 	in := c18in{Msg: Hx(packed), Alg: kp.name, Compress: m.Compress, Len: len(packed), Extra: len(m.Extra), KeyRR: kp.key.String()}
+	// the size of the signed message is known beforehand: Pack(), one SIG record
+	// (root owner, ten fixed octets, RDATA), a signature whose length the key fixes
+	total := len(packed) + 11 + len(sigRdata(s)) + sigLen(kp)
 	out, err := doSign(s, kp, m)
 	st["sign_checked"]++
+	if err == nil && len(out) > 65535 {
+		in.Detail = "signed size " + Itoa(len(out))
+		Viol("C18/Sign/oversize", "SIG.Sign returned more octets than a DNS message can have", in)
+		return nil
+	}
 	if err != nil {
 		mu := m.Copy()
 		mu.Compress = false
+		in.Detail = "signed size " + Itoa(total)
 		switch {
-		case errClass(err) == "err:buf" && len(packed)+11+len(sigRdata(s))+600 > 65535:
+		case errClass(err) == "err:buf" && total > 65535:
 			st["too_large_for_one_message"]++
+		case errClass(err) == "err:buf" && total > 65000:
+			Viol("C18/Sign/size-limit", "SIG.Sign refuses a message whose signed size fits 65535 octets: "+err.Error(), in)
 		case errClass(err) == "err:buf" && m.Compress && m.Len() < mu.Len():
 			in.Detail = "m.Len()=" + Itoa(m.Len()) + " uncompressed=" + Itoa(mu.Len())
 			Viol("C18/Sign/ErrBuf-compress", "SIG.Sign fails with ErrBuf on a message that packs fine (compression enabled)", in)
@@ -553,6 +788,10 @@ func oracleMessage(r *Rng, m *dns.Msg, kp keyPair, others []keyPair, allBits boo
 		return nil
 	}
 	in.Signed = Hx(out)
+	if len(out) != total {
+		in.Detail = "signed size " + Itoa(len(out)) + ", Pack + SIG record + signature = " + Itoa(total)
+		Viol("C18/Sign/layout", "signed octets are not Pack() plus one SIG record with a signature of the key's size", in)
+	}
 	// layout: Pack() with ARCOUNT+1, then one SIG record
 	rs, ok := refSig0(out)
 	want := append([]byte(nil), packed...)
@@ -607,9 +846,22 @@ func oracleMessage(r *Rng, m *dns.Msg, kp keyPair, others []keyPair, allBits boo
 	}
 	// every single-bit alteration
 	nbits := len(out) * 8
-	for bit := 0; bit < nbits; bit++ {
+	var lightBits []int
+	if mode == modeLight {
+		for i := 0; i < 12; i++ {
+			lightBits = append(lightBits, r.Intn(rs.rr.start*8))
+			lightBits = append(lightBits, rs.rr.start*8+r.Intn(nbits-rs.rr.start*8))
+		}
+		lightBits = append(lightBits, 0, 95, 96, rs.rr.start*8-1, rs.rr.start*8, rs.sigEnd*8-1, rs.sigEnd*8, nbits-1)
+		nbits = len(lightBits)
+	}
+	for idx := 0; idx < nbits; idx++ {
+		bit := idx
+		if mode == modeLight {
+			bit = lightBits[idx]
+		}
 		pos := bit / 8
-		if !allBits {
+		if mode == modeSample {
 			switch {
 			case pos < rs.rr.start && (len(out) > 1500 || r.Next()%16 != 0):
 				continue
@@ -628,11 +880,13 @@ func oracleMessage(r *Rng, m *dns.Msg, kp keyPair, others []keyPair, allBits boo
 			st["bitflips_unpack_rejected"]++
 			continue
 		}
-		if _, ok := um2.Extra[len(um2.Extra)-1].(*dns.SIG); !ok {
+		usig, ok := um2.Extra[len(um2.Extra)-1].(*dns.SIG)
+		if !ok {
 			st["bitflips_unpack_rejected"]++
 			continue
 		}
-		got, _, _, _ := receive(mut, s, kp.key)
+		// what receive does, without unpacking a second time
+		got := Protect(func() string { return errClass(usig.Verify(kp.key, mut)) })
 		st["bitflips_checked"]++
 		if sigHeader && got != "panic" {
 			if got == "ok:" {
@@ -652,7 +906,10 @@ func oracleMessage(r *Rng, m *dns.Msg, kp keyPair, others []keyPair, allBits boo
 	}
 	// every truncation of at least header size, and with the caller's SIG: error, never panic
 	for n := 12; n < len(out); n++ {
-		if !allBits && n%5 != 0 && n < rs.rr.start {
+		if mode == modeSample && n%5 != 0 && n < rs.rr.start {
+			continue
+		}
+		if mode == modeLight && n > 14 && n+40 < len(out) && (n < rs.rr.start-2 || n > rs.rr.start+2) && r.Intn(len(out)/32+1) != 0 {
 			continue
 		}
 		got := Protect(func() string { return errClass(s.Verify(kp.key, out[:n])) })
@@ -794,7 +1051,11 @@ func runC18(r *Rng, tier string, n int) {
 		m := genMsg(r, []int{1, 3, 6, 12}[r.Intn(4)])
 		m.Compress = i%2 == 1
 		others := []keyPair{extra[i%2], keys[(i+1)%len(keys)]}
-		if out := oracleMessage(r, m, kp, others, i < 3 || (tier == "thorough" && i < 40)); out != nil && seedMsg == nil {
+		mode := modeSample
+		if i < 3 || (tier == "thorough" && i < 40) {
+			mode = modeAll
+		}
+		if out := oracleMessage(r, m, kp, others, mode); out != nil && seedMsg == nil {
 			seedMsg = out
 		}
 	}
@@ -805,7 +1066,7 @@ func runC18(r *Rng, tier string, n int) {
 		for i := 0; i < na; i++ {
 			m.Extra = append(m.Extra, &dns.A{Hdr: dns.RR_Header{Name: "a.", Rrtype: dns.TypeA, Class: 1}, A: []byte{1, 2, 3, byte(i)}})
 		}
-		oracleMessage(r, m, keys[0], nil, false)
+		oracleMessage(r, m, keys[0], nil, modeSample)
 	}
 	for _, sz := range []int{20000, 60000, 65300} {
 		m := new(dns.Msg)
@@ -813,8 +1074,12 @@ func runC18(r *Rng, tier string, n int) {
 		for m.Len() < sz {
 			m.Answer = append(m.Answer, &dns.TXT{Hdr: dns.RR_Header{Name: "big.example.", Rrtype: dns.TypeTXT, Class: 1}, Txt: []string{strings.Repeat("x", 200)}})
 		}
-		oracleMessage(r, m, keys[0], nil, false)
+		oracleMessage(r, m, keys[0], nil, modeSample)
 	}
+	// (1b) every size limit of Sign/Verify, from both sides, for every algorithm family
+	oracleSizes(r, keys, tier)
+	// (1c) many goroutines signing and verifying at once
+	oracleConcurrent(r, keys, tier)
 	// (2) validity window, malformed input
 	wm := new(dns.Msg)
 	wm.SetQuestion("example.org.", dns.TypeSOA)
@@ -909,5 +1174,6 @@ func runC18(r *Rng, tier string, n int) {
 		}
 	}
 	_ = base64.StdEncoding
+	flushBig()
 	Stat(st)
 }
